@@ -229,6 +229,15 @@ func ConfigBases() map[string][]Op {
 		{K: VAdd, I: "i", ID: "b", V: v(0, 1)},
 		{K: VReinforce, I: "i", IDs: []string{"a"}},
 	}
+	// text + metadata + edges in one index: every pair of {metadata filter, graph scope, text query}
+	// can be combined, including a filter and a scope that are each non-empty but disjoint
+	b["text-graph"] = []Op{{K: VCreate, I: "i", Cfg: &IdxCfg{Metric: "euclidean", Prec: "float32", M: 2, EfC: 4, Lang: "english"}},
+		{K: VAdd, I: "i", ID: "a", V: v(1, 0), M: map[string]any{"s": "x", "content": "hello world"}},
+		{K: VAdd, I: "i", ID: "b", V: v(0, 1), M: map[string]any{"s": "y", "content": "hello there"}},
+		{K: VAdd, I: "i", ID: "c", V: v(1, 1), M: map[string]any{"content": "world hello again"}},
+		{K: VLink, I: "i", ID: "a", ID2: "c", S: "r", W: 1},
+		{K: VLink, I: "i", ID: "b", ID2: "b", S: "q", W: 1},
+	}
 	b["drop-recreate"] = []Op{{K: VCreate, I: "i", Cfg: cfg("euclidean", "float32")},
 		{K: VAdd, I: "i", ID: "a", V: v(1, 0), M: map[string]any{"s": "x"}},
 		{K: VLink, I: "i", ID: "a", ID2: "b", S: "r", W: 1},
